@@ -245,7 +245,7 @@ var (
 	typeNames  = []string{"null", "boolean", "integer", "number", "string", "array", "object"}
 	goodRegexp = []string{"^a", "b$", "^[ab]+$", "a|c", "^.{2}$", "[0-9]"}
 	badRegexp  = []string{"(", "[a", "a**", "\\", "(?P<n", "a{2,1}"}
-	keyNames   = []string{"a", "b", "c", "", "a/b", "~", "0", "é"}
+	keyNames   = []string{"a", "b", "c", "", "a/b", "~", "0", "é", "\x01", "del\x7f", "tab\t", "q\"q"}
 	kwLike     = map[string]bool{}
 )
 
